@@ -116,6 +116,28 @@ def eval_case(case):
             pass
         res = fn(E)
         viol, n = compare_table(l, N, res, cnt)
+        # float path: an eccentricity ARRAY (mutable operand) must give element for element what the scalar calls give (floats are immutable,
+        # so in-place arithmetic on aliased powers of e cannot hide there), and the array is left untouched
+        earr = np.array([0.03, 0.21, 0.47])
+        e0 = earr.copy()
+        ra = fn(earr)
+        if not np.array_equal(earr, e0):
+            viol.append({'key': f'ecc-input-modified-l{l}-N{N}', 'desc': f'eccentricity_funcs_trunc{N} (l={l}) changed the eccentricity array passed by the caller'})
+        for i_, ev in enumerate(e0):
+            rs = fn(float(ev))
+            bad_ = None
+            for p_ in rs:
+                for q_ in rs[p_]:
+                    cnt['entries_compared'] += 1
+                    x_, y_ = float(np.asarray(ra[p_][q_], dtype=float).reshape(-1)[i_]) if np.ndim(ra[p_][q_]) else float(ra[p_][q_]), float(rs[p_][q_])
+                    if abs(x_ - y_) > 1e-12 * max(1.0, abs(y_)):
+                        bad_ = (int(p_), int(q_), x_, y_)
+                        break
+                if bad_:
+                    break
+            if bad_:
+                viol.append({'key': f'ecc-array-vs-scalar-l{l}-N{N}', 'desc': f'l={l} N={N} mode (p,q)=({bad_[0]},{bad_[1]}): array call gives {bad_[2]!r} at e={float(ev)!r} but the scalar call gives {bad_[3]!r}'})
+                break
         obs = {'l': l, 'N': N, 'modes_in_table': n, **cnt}
     elif kind == 'helper':
         N, maxl = case['N'], case['maxl']
